@@ -269,6 +269,7 @@ pub fn db_strategy(with_errors: bool) -> BoxedStrategy<DbSpec> {
                         errors,
                         empty_as_c,
                         epoch_errors: Vec::new(),
+                        f_text: 0,
                     },
                     filter_exprs,
                     chunk: if chunk == 3 { 7 } else { 0 },
@@ -500,6 +501,28 @@ impl Prop for C11 {
 
 // ------------------------------------------------------------------ C17
 
+/// the fake IRRd's error keys for the queries an expression makes: set names, and `AS<n>/?` for
+/// the route queries of the AS numbers it names directly or through its as-sets
+fn queried_keys(e: &Expr, db: &Db, out: &mut Vec<String>) {
+    match e {
+        Expr::As(n, _) => out.push(format!("AS{n}/?")),
+        Expr::AsSet(name, _) => {
+            out.push(name.to_ascii_uppercase());
+            if let Some(members) = db.as_set_members(name) {
+                out.extend(members.iter().map(|n| format!("AS{n}/?")));
+            }
+        }
+        Expr::RouteSet(name, _) => out.push(name.to_ascii_uppercase()),
+        Expr::FilterSet(name) => out.push(name.to_ascii_uppercase()),
+        Expr::And(a, b) | Expr::Or(a, b) => {
+            queried_keys(a, db, out);
+            queried_keys(b, db, out);
+        }
+        Expr::Not(a) => queried_keys(a, db, out),
+        Expr::Any | Expr::Literal(..) => {}
+    }
+}
+
 pub struct C17;
 
 impl Prop for C17 {
@@ -511,7 +534,7 @@ impl Prop for C17 {
         "sequences of 2..8 expressions evaluated on ONE RpslEvaluator against a database in which \
          generated keys always answer with D, E or F (so a result is a function of database and \
          expression) and filter-sets are served from two sources (the resolver stops reading at the \
-         first match); each result must equal the result of the same expression on a fresh \
+         first match), further errors are injected for one query of one member of the sequence (at random, and aimed at a key that member really queries; F answers may carry a long non-ASCII text); each result must equal the result of the same expression on a fresh \
          evaluator (both failing, or equal sets); the evaluator must stay usable after a failure. \
          Non-trivial = a failed evaluation, or one that used a filter-set, is followed by a \
          successful one; distinct by (database, sequence)"
@@ -554,9 +577,36 @@ impl Prop for C17 {
                         ),
                         0..4,
                     ),
+                    // the same, aimed: (member, which of the things that member names, address
+                    // family, answer) - an error for a query that member really makes
+                    prop::collection::vec(
+                        (
+                            any::<u16>(),
+                            any::<u16>(),
+                            any::<bool>(),
+                            prop_oneof![1 => Just(Answer::NotFound), 1 => Just(Answer::NotUnique), 3 => Just(Answer::Other)],
+                        ),
+                        0..3,
+                    ),
+                    prop_oneof![2 => Just(0u8), 1 => 1u8..9],
                 )
             })
-            .prop_map(|(mut spec, exprs, epoch_errors)| {
+            .prop_map(|(mut spec, exprs, mut epoch_errors, aimed, f_text)| {
+                spec.db.f_text = f_text;
+                for (m, a, v6, answer) in aimed {
+                    let e = pick_idx(m, exprs.len().min(8));
+                    let mut keys = Vec::new();
+                    queried_keys(&exprs[e], &spec.db, &mut keys);
+                    if keys.is_empty() {
+                        continue;
+                    }
+                    let key = keys[pick_idx(a, keys.len())].clone();
+                    let key = match key.strip_suffix("/?") {
+                        Some(asn) => format!("{asn}/{}", if v6 { "6" } else { "g" }),
+                        None => key,
+                    };
+                    epoch_errors.push((e as u8, key, answer));
+                }
                 spec.db.epoch_errors = epoch_errors;
                 Case { spec, exprs }
             })
